@@ -373,6 +373,10 @@ func genStream(r *Rng, nlines int, mk func() []byte) []byte {
 		case last && r.Chance(1, 3): // no trailing newline
 		case r.Chance(1, 5):
 			b = append(b, '\r', '\n')
+		case r.Chance(1, 12): // doubly converted line ends, progress output: only ONE carriage return belongs to the terminator
+			b = append(b, '\r', '\r', '\n')
+		case r.Chance(1, 40):
+			b = append(b, '\r', '\r', '\r', '\n')
 		default:
 			b = append(b, '\n')
 		}
